@@ -46,6 +46,14 @@ def _lists_untouched(a, b) -> bool:
     return True
 
 
+def c01_in_dom(d) -> bool:
+    try:
+        from props import c01
+        return c01.in_dom(d) and c01.in_dom_keys_ok(d)
+    except Exception:  # noqa: BLE001
+        return False
+
+
 def oracle_order(ctx: Ctx, d: dict) -> None:
     from dictIO.utils.dict import order_keys
     x = copy.deepcopy(d)
@@ -65,6 +73,30 @@ def oracle_order(ctx: Ctx, d: dict) -> None:
         r2 = impl.plain(order_keys(copy.deepcopy(r)))
         if not same(r, r2):
             ctx.violation("order_keys not idempotent", {"kind": "order", "d": enc(d)}, enc(r2), enc(r))
+    # the same content with its nested dicts held as SDict objects (d["sub"] = SDict({...}), a dict read from another file):
+    # through the utility function, the method, and a write with order=True
+    if any(isinstance(v, dict) and v for v in d.values()):
+        from dictIO import DictReader, DictWriter, SDict
+
+        def nest(v, top=True):
+            if isinstance(v, dict):
+                w = {k: nest(x, False) for k, x in v.items()}
+                return w if top else SDict(w)
+            if isinstance(v, list):
+                return [nest(x, False) if not isinstance(x, dict) else {k: nest(y, False) for k, y in x.items()} for x in v]
+            return v
+        try:
+            r3 = impl.plain(order_keys(nest(d)))
+            sx = SDict(nest(d)); sx.order_keys(); r4 = impl.plain(dict(sx))
+            with impl.scratch() as td:
+                DictWriter.write(nest(d), td / "o", mode="w", order=True)
+                r5 = spec.strip_placeholders(impl.plain(DictReader.read(td / "o")))
+        except Exception as e:  # noqa: BLE001
+            ctx.violation("ordering a dict whose nested dicts are SDict objects raises", {"kind": "order", "d": enc(d)}, repr(e), "ordered dict"); return
+        if not same(r3, r) or not same(r4, r):
+            ctx.violation("ordering a dict whose nested dicts are SDict objects changes the content", {"kind": "order", "d": enc(d)}, enc(r3 if not same(r3, r) else r4), enc(r))
+        elif spec.unordered(r5) != spec.unordered(spec.norm(r)) and c01_in_dom(d):
+            ctx.violation("a dict whose nested dicts are SDict objects, written with order=True, reads back as different data", {"kind": "order", "d": enc(d)}, enc(r5), enc(spec.norm(r)))
 
 
 def oracle_files(ctx: Ctx, d: dict) -> None:
